@@ -153,7 +153,11 @@ def run(ctx):
             for b, t in helpers:
                 g = F.fn(t["rpath"])
                 okh = okh or check_delta_helper(ctx, g, wadd)
-            ctx.check(bool(helpers) and okh and all(f.must_pass([s["bb"]], [b for b, t in helpers]) or f.block_dominates(b, s["bb"]) for b, t in helpers[:1]),
+            okd = bool(helpers) and okh and all(f.must_pass([s["bb"]], [b for b, t in helpers]) or f.block_dominates(b, s["bb"]) for b, t in helpers[:1])
+            if not helpers:
+                # the statistics update is written in the function itself (or was a private helper of it): same rule per path
+                okd = check_delta_paths(ctx, f, wadd, new, old)
+            ctx.check(okd,
                       "R16.3", "%s|delta-stats-same-operands" % f.name,
                       "a weight update reports (new, old) - the operands of the delta applied to the total, in that order - to the weight statistics", f.where(s["bb"], s["idx"]))
             continue
@@ -344,6 +348,34 @@ def check_delta_helper(ctx, g, wadd):
             ok_gt = True
         else:
             if not mentions(amt, lambda s_: s_ == ("binop", "Sub", OLD, NEW)):
+                return False
+            ok_le = True
+    return ok_gt and ok_le
+
+
+def check_delta_paths(ctx, f, wadd, new, old):
+    """f itself bumps WeightAdded for an update: on every path that applies the delta, exactly one bump; with new > old the
+    amount is new - old, otherwise it is built from old - new"""
+    from core import lt_truth
+    ns, os_ = strip_site(new), strip_site(old)
+    is_new = lambda z: strip_site(z) == ns
+    is_old = lambda z: strip_site(z) == os_
+    ok_gt = ok_le = False
+    for p in ipaths(ctx.facts, f, stop=lambda n: n in wadd, depth=2):
+        calls = p.calls(wadd)
+        if not calls:
+            continue
+        gt = [lt_truth(a, is_old, is_new) for a in p.atoms]
+        gt = [x for x in gt if x is not None]
+        if len(calls) != 1 or not gt:
+            return False
+        amt = calls[0].args[1]
+        if gt[0]:
+            if strip_site(strip_casts(amt)) != ("binop", "Sub", ns, os_):
+                return False
+            ok_gt = True
+        else:
+            if not mentions(amt, lambda s_: strip_site(s_) == ("binop", "Sub", os_, ns)):
                 return False
             ok_le = True
     return ok_gt and ok_le
